@@ -589,19 +589,123 @@ theorem spells_quoted (s : String) : Spells (quoteStr s).toList .string (.str s)
   rw [hq] at h ⊢
   exact lexS_tok '"' _ line _ _ _ (by decide) h
 
+/-! ### quoted strings as a user writes them: either kind of quote, any content without a backslash or the quote itself - line breaks included -/
+
+theorem scan_raw (q : Char) (cs rest : List Char) (h : ∀ c ∈ cs, c ≠ q ∧ c ≠ '\\') :
+    ∀ acc, scanStringBody q (cs ++ q :: rest) acc = some (acc.reverse ++ cs, rest) := by
+  induction cs with
+  | nil => intro acc; simp only [List.nil_append, List.append_nil]; unfold scanStringBody; simp
+  | cons c t ih =>
+    intro acc
+    have hc := h c (List.mem_cons_self ..)
+    have e1 : (c == q) = false := by simpa using hc.1
+    have e2 : (c == '\\') = false := by simpa using hc.2
+    simp only [List.cons_append]
+    unfold scanStringBody
+    simp only [e1, e2, Bool.false_eq_true, if_false]
+    rw [ih (fun d hd => h d (List.mem_cons_of_mem _ hd)) (c :: acc)]
+    simp
+
+theorem decode_raw (cs : List Char) (h : ∀ c ∈ cs, c ≠ '\\') : ∀ (fuel : Nat) (acc : List Char), (backslashReplace cs).length < fuel →
+    decodeEscapes fuel (backslashReplace cs) acc = .ok (acc.reverse ++ cs) := by
+  induction cs with
+  | nil =>
+    intro fuel acc hf
+    cases fuel with
+    | zero => omega
+    | succ f => simp [backslashReplace, decodeEscapes]
+  | cons c t ih =>
+    intro fuel acc hf
+    have h1 : c ≠ '\\' := h c (List.mem_cons_self ..)
+    have ht : ∀ d ∈ t, d ≠ '\\' := fun d hd => h d (List.mem_cons_of_mem _ hd)
+    cases fuel with
+    | zero => omega
+    | succ f =>
+      have hsplit : backslashReplace (c :: t) = backslashReplace [c] ++ backslashReplace t := by
+        rw [show c :: t = [c] ++ t by rfl, C15.bsr_append]
+      rw [hsplit] at hf ⊢
+      by_cases hl : c.toNat ≤ 255
+      · rw [C15.bsr_ascii c hl] at hf ⊢
+        simp only [List.cons_append, List.nil_append] at hf ⊢
+        rw [C15.dec_plain _ _ _ _ h1, ih ht f _ (by simp at hf ⊢; omega)]; simp
+      · by_cases hm : c.toNat ≤ 0xFFFF
+        · have hb : backslashReplace [c] = '\\' :: 'u' :: hexN 4 c.toNat := by simp [backslashReplace, hl, hm]
+          rw [hb] at hf ⊢
+          simp only [List.cons_append] at hf ⊢
+          rw [C15.dec_bs_u f _ _ _ c.toNat (C15.hexRun4 c.toNat (by omega) _) (C15.char_not_surrogate c)]
+          rw [ih ht f _ (by simp [C15.hexN4] at hf ⊢; omega)]
+          simp [Char.ofNat_toNat]
+        · have hb : backslashReplace [c] = '\\' :: 'U' :: hexN 8 c.toNat := by simp [backslashReplace, hl, hm]
+          rw [hb] at hf ⊢
+          simp only [List.cons_append] at hf ⊢
+          have hmax := C15.char_le_max c
+          rw [C15.dec_bs_U f _ _ _ c.toNat (C15.hexRun8 c.toNat (by omega) _) hmax (C15.char_not_surrogate c)]
+          rw [ih ht f _ (by simp [C15.hexN8] at hf ⊢; omega)]
+          simp [Char.ofNat_toNat]
+
+theorem scanNum_quote (q : Char) (hq : q = '"' ∨ q = '\'') (l : List Char) : isIdStart q = false ∧ scanFloat (q :: l) = none ∧ scanInt (q :: l) = none := by
+  have hos : optSign (q :: l) = (false, q :: l) := by
+    rcases hq with rfl | rfl <;> rfl
+  have hsp : spanDigits (q :: l) = ([], q :: l) := by
+    rcases hq with rfl | rfl <;> simp [spanDigits, List.span, List.span.loop, isDig]
+  refine ⟨by rcases hq with rfl | rfl <;> decide, ?_, ?_⟩
+  · unfold scanFloat scanMantissa
+    simp only [hos, hsp]
+    rcases hq with rfl | rfl <;> simp
+  · unfold scanInt
+    simp only [hos, hsp]
+    simp
+
+/-- a quoted string written with either kind of quote, holding any characters except a backslash and the quote itself - blanks, tabs, raw line
+breaks, delimiters, non-ASCII text - is one STRING token with exactly that content, on the line it starts on; the line counter moves on by the
+line breaks inside it -/
+theorem raw_string (q : Char) (hq : q = '"' ∨ q = '\'') (cs rest : List Char) (line : Nat) (h : ∀ c ∈ cs, c ≠ q ∧ c ≠ '\\') :
+    scanOne (q :: (cs ++ q :: rest)) line = .tok ⟨.string, .str (String.ofList cs), line⟩ rest (line + countNewlines cs) := by
+  obtain ⟨hid, hF, hI⟩ := scanNum_quote q hq (cs ++ q :: rest)
+  have hqq : (q == '"' || q == '\'') = true := by rcases hq with rfl | rfl <;> decide
+  unfold scanOne
+  simp only [hid, Bool.false_eq_true, if_false, hF, hI, hqq, if_true]
+  rw [scan_raw q cs rest h []]
+  simp only [List.reverse_nil, List.nil_append]
+  unfold stringValue
+  rw [decode_raw cs (fun c hc => (h c hc).2) _ [] (Nat.lt_succ_self _)]
+  simp
+
+/-- `sp` spells the token `(k, v)` and contains `n` line breaks: what follows is read from line `line + n` on -/
+def SpellsN (sp : List Char) (k : TokKind) (v : TVal) (n : Nat) (ok : List Char → Prop) : Prop :=
+  ∀ rest line, ok rest → lexS (sp ++ rest) line = ⟨k, v, line⟩ :: lexS rest (line + n)
+
+theorem Spells.toN {sp : List Char} {k : TokKind} {v : TVal} {ok : List Char → Prop} (h : Spells sp k v ok) : SpellsN sp k v 0 ok :=
+  fun rest line hok => by rw [h rest line hok]; rfl
+
+theorem spells_raw_string (q : Char) (hq : q = '"' ∨ q = '\'') (cs : List Char) (h : ∀ c ∈ cs, c ≠ q ∧ c ≠ '\\') :
+    SpellsN (q :: (cs ++ [q])) .string (.str (String.ofList cs)) (countNewlines cs) (fun _ => True) := by
+  intro rest line _
+  have e : q :: (cs ++ [q]) ++ rest = q :: (cs ++ q :: rest) := by simp
+  rw [e]
+  have hb : q ≠ ' ' ∧ q ≠ '\t' := by rcases hq with rfl | rfl <;> decide
+  exact lexS_tok q _ line _ _ _ hb (raw_string q hq cs rest line h)
+
+/-- non-vacuity: a single-quoted string holding a raw line break; the word after it is on line 2 -/
+example : (lexS "x = 'a\nb' y".toList 1).map (fun t => (t.kind, t.line)) = [(.id, 1), (.equal, 1), (.string, 1), (.id, 2)] := by decide +kernel
+
 /-- a command file as characters: layout, a token spelling, layout, ... - with the tokens it denotes and the lines they start on -/
 inductive Text : List Char → Nat → List Tok → Prop
   | done (g : List Char) (n line : Nat) : Gap g n → Text g line []
   | tok (g sp tail : List Char) (n line : Nat) (k : TokKind) (v : TVal) (ok : List Char → Prop) (ts : List Tok) :
       Gap g n → Spells sp k v ok → ok tail → Text tail (line + n) ts → Text (g ++ (sp ++ tail)) line (⟨k, v, line + n⟩ :: ts)
+  | tokN (g sp tail : List Char) (n m line : Nat) (k : TokKind) (v : TVal) (ok : List Char → Prop) (ts : List Tok) :
+      Gap g n → SpellsN sp k v m ok → ok tail → Text tail (line + n + m) ts → Text (g ++ (sp ++ tail)) line (⟨k, v, line + n⟩ :: ts)
 
 theorem lexS_text {cs : List Char} {line : Nat} {ts : List Tok} (h : Text cs line ts) : lexS cs line = ts := by
   induction h with
   | done g n line hg => have := lexS_gap hg [] line; simpa [lexS_nil] using this
   | tok g sp tail n line k v ok ts hg hsp hok _ ih => rw [lexS_gap hg, hsp tail (line + n) hok, ih]
+  | tokN g sp tail n m line k v ok ts hg hsp hok _ ih => rw [lexS_gap hg, hsp tail (line + n) hok, ih]
 
-/-- **C10, characters to program.**  A text made of token spellings (identifiers, integers, decimals, quoted strings of any content,
-punctuation) separated by arbitrary layout - blanks, tabs, line feeds or CR LF, comments - whose tokens render the program `cs`
+/-- **C10, characters to program.**  A text made of token spellings (identifiers, integers, decimals with or without exponent, quoted strings
+of any content - escaped as the serializer writes them, or written raw in single or double quotes, line breaks included -, punctuation)
+separated by arbitrary layout - blanks, tabs, line feeds or CR LF, comments - whose tokens render the program `cs`
 (lists nested to any depth, trailing commas or not) parses to exactly `cs`, every node carrying the line it really starts on. -/
 theorem parse_text (chars : List Char) (ts : List Tok) (cs : List CNode) (ht : Text chars 1 ts) (hp : RProg ts cs) :
     parse (String.ofList chars) = .ok ⟨cs, 3⟩ := by
